@@ -121,11 +121,12 @@ inductive Mode where
   | standard | count | countMatches | filesWithMatches | filesWithoutMatch | json
   deriving Repr, DecidableEq
 
-/-- `HiArgs::from_low_args`: `-v --count-matches ⇒ --count`; `-o --count ⇒ --count-matches`. -/
+/-- `HiArgs::from_low_args`: `-v --count-matches ⇒ --count`; `-o --count ⇒ --count-matches` unless `-v`
+(then it would be turned back into `--count`). -/
 def normalizeMode (mode : Mode) (invert onlyMatching : Bool) : Mode :=
   match mode with
   | .countMatches => if invert then .count else .countMatches
-  | .count => if onlyMatching then .countMatches else .count
+  | .count => if onlyMatching && !invert then .countMatches else .count
   | m => m
 
 /-- which printer `HiArgs::printer` builds: `none` = Standard, `some none` = JSON, `some (some k)` = Summary k -/
